@@ -85,6 +85,16 @@ def run(prop, tier, seed, replay=None):
                         Ts.append(Ts[0])
                     todo_tb.append(('B-%06d' % k, Ts, [rnd.choice(modes), rnd.choice(modes)] if modes else [], None, seed + k))
             todo_files = []
+            if prop == 'C08':
+                # "every grammar produced" includes the files: counts as a reader of the written grammar sees them
+                nf = 150 if tier == 'quick' else 1500
+                for k in range(nf):
+                    Ts = [rnd.choice(trees) for _ in range(rnd.randint(2, 3))]
+                    if k % 3 == 0:
+                        Ts = [treeio.random_tree(rnd, nmax=8, maxcons=6, labels=('A', 'B', 'NP'), tags=('T', 'A'), chain=0.3)
+                              for _ in range(rnd.randint(2, 3))]
+                    bm = None if k % 2 == 0 else rnd.choice(ALL_MODES)
+                    todo_files.append(('F-%05d' % k, Ts, bm, None, seed + k, False))
             if prop == 'C09':
                 trees = []
                 for b in EX_BOUNDS[tier]:
